@@ -1,4 +1,5 @@
 import GoatSpec.Cmd
+import GoatSpec.SkelSpec
 /-! # C12 — refused or failed commands leave the working tree untouched.
 
 The model evaluates the preconditions in the order of the code and only then produces a write
@@ -120,5 +121,85 @@ theorem nothing_to_do_no_writes (e : CmdEnv) (r : TrackReady e) (hm : e.hasMain 
 /-- non-vacuity: a valid environment in which track writes -/
 example : plan ⟨true, true, true, true, true, false, true, false, false, true, true, true, true, true, true, true, false⟩ .track
     = .ok [.generated, .source, .mainEntry] := by simp [plan, preRun, loadCfg]
+
+/-! ## the same structure, read off the source
+
+`vh skeleton` translates /repo's Go source into `Skeleton.bodies` on every run (go/types: static
+callees, calls through project interfaces, external calls whose last result is `error`, new
+error values, hooks, file-system mutations). The theorems below are evaluated on that
+regenerated value, so they are re-proved against what the code says now. Branches are
+flattened and loops doubled: "may run after" is over-approximated. -/
+section skeleton
+open GoatSpec.SkelSpec
+
+/-- the summary table the analyses read is a fixed point of the transfer function over the
+    current skeleton (checked in the kernel, one round over every function body) -/
+theorem skeleton_table_fixed : isFixedPoint = true := by decide +kernel
+
+/-- **the hooks see every write**: every file-system mutation in the project's non-test source
+    (os.WriteFile/Create/OpenFile/Remove/RemoveAll/Rename/Mkdir*/…, io/ioutil, os/exec,
+    go-git work-tree operations) is directly preceded by `verifhook.Boundary` — so the write log
+    and the tree hashes of `e2e refusals`, and the crash points of `e2e crash`, miss none -/
+theorem every_mutation_hooked : unhooked = [] := by decide +kernel
+
+/-- the functions that mutate the file system themselves (everything else writes through them) -/
+theorem writer_functions : writers =
+    [("pkg/config.InitWithConfig", ["os.Create"]),
+     ("pkg/goat.CleanExecutor.clean", ["os.Remove", "os.RemoveAll"]),
+     ("pkg/goat.PatchExecutor.apply", ["os.RemoveAll"]),
+     ("pkg/maininfo.MainPackageInfo.ApplyMainEntry", ["os.WriteFile", "os.WriteFile"]),
+     ("pkg/tracking/increment.Values.Remove", ["os.Remove"]),
+     ("pkg/tracking/increment.Values.Save", ["os.MkdirAll", "os.WriteFile"]),
+     ("pkg/utils.FormatAndSave", ["os.WriteFile"])] := by decide +kernel
+
+/-- **`goat track`: what can still fail once the first file has been written.** Exactly the
+    re-parse / re-print / stat of content the command itself produced (FormatAndSave,
+    ApplyMainEntry, AddImport): every precondition, the diff, the parse of every changed file,
+    the numbering, the validation and rendering of the generated file come before the first
+    mutation. A new fallible step behind a write (a check moved or added too late) lands in this
+    list and breaks the theorem. -/
+theorem track_late_failures : late "cmd/goat.trackCmd" =
+    [("pkg/maininfo.MainPackageInfo.ApplyMainEntry", "go/parser.ParseFile"),
+     ("pkg/maininfo.MainPackageInfo.ApplyMainEntry", "os.Stat"),
+     ("pkg/utils.AddCodes", "go/printer.Config.Fprint"),
+     ("pkg/utils.AddImport", "fmt.Errorf (new error)"),
+     ("pkg/utils.FormatAndSave", "os.Stat"),
+     ("pkg/utils.FormatAst", "go/printer.Config.Fprint"),
+     ("pkg/utils.GetAstTree", "go/parser.ParseFile")] := by decide +kernel
+
+/-- `goat patch`: in addition the generated file is validated and rendered after the sources were
+    saved, and the emptied package directory is listed -/
+theorem patch_late_failures : late "cmd/goat.patchCmd" =
+    [("pkg/config.GetDataType", "fmt.Errorf (new error)"),
+     ("pkg/maininfo.MainPackageInfo.ApplyMainEntry", "go/parser.ParseFile"),
+     ("pkg/maininfo.MainPackageInfo.ApplyMainEntry", "os.Stat"),
+     ("pkg/tracking/increment.Values.Render", "text/template.Template.Parse"),
+     ("pkg/tracking/increment.Values.Render", "text/template.Template.Execute"),
+     ("pkg/tracking/increment.Values.Validate", "fmt.Errorf (new error)"),
+     ("pkg/utils.AddCodes", "go/printer.Config.Fprint"),
+     ("pkg/utils.AddImport", "fmt.Errorf (new error)"),
+     ("pkg/utils.FormatAndSave", "os.Stat"),
+     ("pkg/utils.FormatAst", "go/printer.Config.Fprint"),
+     ("pkg/utils.GetAstTree", "go/parser.ParseFile"),
+     ("pkg/utils.IsDirEmpty", "os.Open"),
+     ("pkg/utils.IsDirEmpty", "os.File.Readdirnames")] := by decide +kernel
+
+theorem clean_late_failures : late "cmd/goat.cleanCmd" =
+    [("pkg/utils.FormatAndSave", "os.Stat"),
+     ("pkg/utils.FormatAst", "go/printer.Config.Fprint"),
+     ("pkg/utils.GetAstTree", "go/parser.ParseFile"),
+     ("pkg/utils.IsDirEmpty", "os.Open"),
+     ("pkg/utils.IsDirEmpty", "os.File.Readdirnames")] := by decide +kernel
+
+/-- `goat init`: the flag record is validated and the template parsed before the file is created -/
+theorem init_late_failures : late "cmd/goat.initCmd" =
+    [("pkg/config.InitWithConfig", "text/template.Template.Execute")] := by decide +kernel
+
+/-- the four commands are the functions of these names, and each of them can mutate the tree
+    (non-vacuity of the four theorems above) -/
+example : (["cmd/goat.trackCmd", "cmd/goat.patchCmd", "cmd/goat.cleanCmd", "cmd/goat.initCmd"].all
+    (fun c => known c && mutates c)) = true := by decide +kernel
+
+end skeleton
 
 end GoatSpec.C12
